@@ -254,7 +254,59 @@ def job_history(family, shape, gemini, batch_size, length):
     return res
 
 
-def job_effects(family, shape, gemini, batch_size):
+def job_history_param(family, shape, hyper_a, hyper_b, edit_data=False):
+    """fit, then change hyper-parameters with set_params (or let the caller edit X in place), then fit the SAME array object again:
+    the result must be, term for term, the fit of a fresh instance constructed with the new hyper-parameters / on the new data"""
+    loader.install()
+    res = _new()
+
+    def setup():
+        core.CTX.merge_sign = True
+        return None
+
+    def body(_):
+        kw = dict(gemini="mi", batch_size=None, max_iter=1, stop_after_training=False, gemini_stub=True, final_infer="concrete")
+        fresh = cm.FitEnv(family, shape, hyper=dict(hyper_b), **kw)
+        if edit_data:
+            for i in range(fresh.X.shape[0]):
+                fresh.X[i, 0] = core.var(f"edited_{i}")
+        fresh.run_fit()
+        ref = fitted_state(fresh)
+        env = cm.FitEnv(family, shape, hyper=dict(hyper_a), **kw)
+        env.run_fit()
+        if edit_data:
+            for i in range(env.X.shape[0]):
+                env.X[i, 0] = core.var(f"edited_{i}")          # the caller edits the array in place, same object
+        env.mdl.set_params(**hyper_b)
+        env.steps.clear(); env.gem_calls.clear(); env.infer_calls.clear()
+        env.affinities.clear()
+        env.run_fit()
+        return ref, fitted_state(env)
+
+    ex = Explorer(max_paths=20)
+    tag = f"history-param/{family}/{hyper_a}->{hyper_b}{'/edit-X' if edit_data else ''}"
+    for out, pc, trace in ex.run(body, setup):
+        res["paths"] += 1
+        if isinstance(out, PathError):
+            res["obligations"].append({"name": tag + "/path-error", "verdict": "inconclusive", "how": repr(out)[:300]})
+            break
+        ref, got = out
+        diff = [k for k in ref if _keys(ref[k]) != _keys(got.get(k))]
+        ok = not diff
+        res["obligations"].append({"name": tag + "/second fit on the same array object == fresh instance", "verdict": "unsat" if ok else "sat", "how": "term-identity", "differs": diff[:4]})
+        if not ok:
+            rep = {"kind": "history-param", "family": family, "shape": list(shape), "hyper_a": hyper_a, "hyper_b": hyper_b, "edit_data": edit_data}
+            if replay(rep):
+                res["violations"].append({"signature": f"{PROP}:{family}:stale-after-{'data-edit' if edit_data else 'set_params'}",
+                                          "what": f"{family}: fit after {'an in-place edit of X' if edit_data else 'set_params(' + str(hyper_b) + ')'} on the same array object reuses state of the first fit ({diff[:3]})", "replay": rep})
+            else:
+                res["obligations"][-1]["verdict"] = "inconclusive"
+        res["samples"].append({"config": tag})
+        break
+    return res
+
+
+def job_effects(family, shape, gemini, batch_size, hyper=None):
     loader.install()
     res = _new()
     box = {}
@@ -264,8 +316,8 @@ def job_effects(family, shape, gemini, batch_size):
         return None
 
     def body(_):
-        hyper = None
-        env = cm.FitEnv(family, shape, gemini=gemini, batch_size=batch_size, max_iter=1, stop_after_training=False, gemini_stub=True, final_infer="concrete")
+        import copy
+        env = cm.FitEnv(family, shape, gemini=gemini, batch_size=batch_size, max_iter=1, stop_after_training=False, gemini_stub=True, final_infer="concrete", hyper=copy.deepcopy(hyper))
         X0 = np.array(env.X, dtype=object, copy=True)
         ids0 = [id(x) for x in env.X.reshape(-1)]
         A = None
@@ -276,7 +328,7 @@ def job_effects(family, shape, gemini, batch_size):
             env.mdl.gemini = inst
             env.y = A
         A0 = None if A is None else np.array(A, dtype=object, copy=True)
-        hp0 = dict(env.mdl.get_params())
+        hp0 = {k: (copy.deepcopy(v) if isinstance(v, (list, dict)) else v) for k, v in env.mdl.get_params().items()}     # deep: in-place edits of a list must show
         log = []
 
         def same():
@@ -296,7 +348,7 @@ def job_effects(family, shape, gemini, batch_size):
     ex = Explorer(max_paths=20)
     for out, pc, trace in ex.run(body, setup):
         res["paths"] += 1
-        tag = f"effects/{family}/{cm.shape_str(shape)}/{gemini}/bs{batch_size}"
+        tag = f"effects/{family}/{cm.shape_str(shape)}/{gemini}/bs{batch_size}{'/' + str(hyper) if hyper else ''}"
         if isinstance(out, PathError):
             res["obligations"].append({"name": tag + "/path-error", "verdict": "inconclusive", "how": repr(out)[:300]})
             break
@@ -310,10 +362,12 @@ def job_effects(family, shape, gemini, batch_size):
                     res["violations"].append({"signature": f"{PROP}:{family}:modifies-input:{call}", "what": f"{family}.{call} modifies the caller's data or affinity array", "replay": rep})
                 else:
                     res["obligations"][-1]["verdict"] = "inconclusive"
-        okp = set(hp0) == set(hp1) and all(hp0[k] is hp1[k] or _keys(hp0[k]) == _keys(hp1[k]) for k in hp0)
+        okp = set(hp0) == set(hp1) and all((hp0[k] == hp1[k]) if isinstance(hp0[k], (list, dict)) else (hp0[k] is hp1[k] or _keys(hp0[k]) == _keys(hp1[k])) for k in hp0)
         res["obligations"].append({"name": f"{tag}/constructor hyper-parameters unchanged by fit/predict/score", "verdict": "unsat" if okp else "sat", "how": "identity"})
-        if not okp:
-            res["violations"].append({"signature": f"{PROP}:{family}:hyperparams-modified", "what": f"{family}: fit modifies constructor hyper-parameters", "replay": {"kind": "effects", "family": family, "shape": list(shape), "gemini": gemini, "batch_size": batch_size}})
+        if not okp and not replay({"kind": "effects", "family": family, "shape": list(shape), "gemini": gemini, "batch_size": batch_size, "hyper": hyper}):
+            res["obligations"][-1]["verdict"] = "inconclusive"
+        elif not okp:
+            res["violations"].append({"signature": f"{PROP}:{family}:hyperparams-modified", "what": f"{family}: fit modifies constructor hyper-parameters", "replay": {"kind": "effects", "family": family, "shape": list(shape), "gemini": gemini, "batch_size": batch_size, "hyper": hyper}})
         break
     return res
 
@@ -416,6 +470,40 @@ def replay(rep, verbose=False):
     rng = np.random.RandomState(0)
     n, d = max(dm["n"], 6), max(dm["d"], 2) if cm.BASE[family] != "kernelrim" else 2
     X = rng.normal(size=(n, d))
+    if kind == "history-param":
+        import copy
+        base = dict(n_clusters=2, max_iter=3, random_state=7)
+        if cm.BASE[family] in ("mlp", "smlp"):
+            base["n_hidden_dim"] = 3
+        Xe = X.copy()
+        if rep.get("edit_data"):
+            Xe[:, 0] = rng.normal(size=n) * 4
+        ref = cls(**base, **copy.deepcopy(rep["hyper_b"])).fit(Xe.copy())
+        m = cls(**base, **copy.deepcopy(rep["hyper_a"]))
+        Xobj = X.copy()
+        m.fit(Xobj)
+        if rep.get("edit_data"):
+            Xobj[:, 0] = Xe[:, 0]
+        m.set_params(**copy.deepcopy(rep["hyper_b"]))
+        m.fit(Xobj)
+        bad = any(not np.allclose(a, b, rtol=1e-10, atol=1e-12) for a, b in zip(m._get_weights(), ref._get_weights())) or not np.array_equal(m.labels_, ref.labels_)
+        if verbose:
+            print("second fit on the same array object vs fresh instance:", "DIFFERS" if bad else "same")
+        return bad
+    if kind == "effects" and rep.get("hyper"):
+        import copy
+        kw = dict(n_clusters=2, max_iter=2, random_state=0, **copy.deepcopy(rep["hyper"]))
+        if cm.BASE[family] in ("mlp", "smlp"):
+            kw["n_hidden_dim"] = 3
+        m = cls(**kw)
+        before = copy.deepcopy(m.get_params())
+        Xw = rng.normal(size=(8, 3))
+        m.fit(Xw)
+        after = m.get_params()
+        bad = any(before[k] != after[k] for k in before if isinstance(before[k], (list, dict, int, float, str, bool, type(None))))
+        if verbose:
+            print("hyper-parameters before", {k: before[k] for k in rep["hyper"]}, "after fit", {k: after[k] for k in rep["hyper"]})
+        return bad
     Xo = rng.normal(size=(n + 3, d)) * 2
     kw = dict(n_clusters=2, max_iter=3, random_state=7)
     if cm.BASE[family] != "cat":
@@ -464,8 +552,19 @@ def jobs(tier):
         out.append({"name": f"taint/{fam}", "target": "checks.c12:job_taint", "kwargs": dict(family=fam, shape=sh, gemini=gem, batch_size=bs), "timeout": 280})
         out.append({"name": f"effects/{fam}", "target": "checks.c12:job_effects", "kwargs": dict(family=fam, shape=sh, gemini=gem, batch_size=bs), "timeout": 280})
         out.append({"name": f"history/{fam}/len1", "target": "checks.c12:job_history", "kwargs": dict(family=fam, shape=sh, gemini=gem, batch_size=bs, length=1), "timeout": 280})
+        if "Sparse" in fam:
+            out.append({"name": f"effects/{fam}/partial-groups", "target": "checks.c12:job_effects",
+                        "kwargs": dict(family=fam, shape=((3, 3, 2) if fam == "SparseLinearModel" else (3, 3, 1, 2)), gemini=gem, batch_size=bs, hyper={"groups": [[0, 1]]}), "timeout": 280})
         if not q or fam in ("LinearModel", "KernelRIM", "MLPModel"):
             out.append({"name": f"history/{fam}/len2", "target": "checks.c12:job_history", "kwargs": dict(family=fam, shape=sh, gemini=gem, batch_size=bs, length=2), "timeout": 280 if q else 1800})
+    hp = [("KernelRIM", (3, 2), {"base_kernel": "linear"}, {"base_kernel": "rbf", "base_kernel_params": {"gamma": 0.5}}, False),
+          ("KernelRIM", (3, 2), {"base_kernel": "rbf", "base_kernel_params": {"gamma": 0.5}}, {"base_kernel": "rbf", "base_kernel_params": {"gamma": 2.0}}, False),
+          ("KernelRIM", (3, 2), {"base_kernel": "linear"}, {"base_kernel": "linear"}, True),
+          ("LinearMMD", (3, 2, 2), {"kernel": "rbf", "kernel_params": {"gamma": 0.5}}, {"kernel": "rbf", "kernel_params": {"gamma": 2.0}}, False),
+          ("LinearModel", (3, 2, 2), {}, {}, True), ("MLPModel", (3, 2, 1, 2), {}, {}, True)]
+    for fam, sh, ha, hb, ed in hp:
+        out.append({"name": f"history-param/{fam}/{'edit-X' if ed else 'set_params'}/{abs(hash(str(hb))) % 1000}", "target": "checks.c12:job_history_param",
+                    "kwargs": dict(family=fam, shape=sh, hyper_a=ha, hyper_b=hb, edit_data=ed), "timeout": 280})
     return out
 
 
